@@ -565,7 +565,13 @@ def reload_phase(ctx, rng, w, ops, real, pks):
     old_objs = w.objs
     last = None; more = []
     with db_session:
-        loaded = [None if pk is None else type(o)[pk] for o, pk in zip(w.objs, pks)]
+        try:
+            loaded = [None if pk is None else type(o)[pk] for o, pk in zip(w.objs, pks)]
+        except core.ObjectNotFound as e:
+            ctx.violation('an object that was alive when the session committed is missing from the database',
+                          {'schema': w.schema, 'ops': ops}, observed=str(e), key='reload:live-object-missing-after-commit:' + (ops[-1]['k'] if ops else ''))
+            w.objs = old_objs
+            return True
         live = [i for i, o in enumerate(loaded) if o is not None]
         reads = []
         # partial loads through the public API
@@ -694,7 +700,14 @@ def reload_phase(ctx, rng, w, ops, real, pks):
             rollback()
     if last is not None:
         with db_session:
-            w.objs = [None if pk is None else type(o)[pk] for o, pk in zip(objs2, pks2)]
+            try:
+                w.objs = [None if pk is None else type(o)[pk] for o, pk in zip(objs2, pks2)]
+            except core.ObjectNotFound as e:
+                ctx.violation('an object that was alive when the session committed is missing from the database',
+                              {'schema': w.schema, 'ops': ops, 'commit_reload_then': [o for o, _, _ in more]}, observed=str(e),
+                              key='reload:live-object-missing-after-commit:' + (more[-1][0]['k'] if more else ''))
+                w.objs = old_objs
+                return True
             ok_objs = [o for o in w.objs if o is not None]
             got = full_read(w, only_live=True)
             for i, g in enumerate(got or []):
@@ -973,11 +986,11 @@ def run(ctx):
         if f.endswith('.json'):
             c = json.load(open(os.path.join(corpus, f)))
             check_fixed(ctx, c['schema'], c['ops'], 'corpus:' + f[:-5])
-    directed_phase(ctx, rng, ctx.scale(60, 600))
-    directed_pk_phase(ctx, rng, ctx.scale(30, 300))
-    directed_cascade_phase(ctx, rng, ctx.scale(30, 300))
+    directed_phase(ctx, rng, ctx.scale(60, 300))
+    directed_pk_phase(ctx, rng, ctx.scale(30, 150))
+    directed_cascade_phase(ctx, rng, ctx.scale(30, 150))
     flush_fixed(ctx)
-    memory_phase(ctx, rng, ctx.scale(140, 2500), ctx.scale(14, 22))
+    memory_phase(ctx, rng, ctx.scale(140, 1400), ctx.scale(14, 22))
 
 
 def replay(ctx, data):
